@@ -8,6 +8,7 @@ import (
 	"github.com/rs/zerolog"
 	"github.com/vektra/mockery/v3/config"
 	"github.com/vektra/mockery/v3/internal/stackerr"
+	"github.com/vektra/mockery/v3/template_funcs"
 	"golang.org/x/tools/go/packages"
 )
 
@@ -58,9 +59,14 @@ func NewMethodScope(r *Registry) *MethodScope {
 // This method is not meant to be used directly by templates.
 func (m *MethodScope) ResolveVariableNameCollisions(ctx context.Context) {
 	log := zerolog.Ctx(ctx)
+	exported := map[string]bool{} // names must stay distinct when exported (a/A, id/ID): templates build field names from them
 	for _, v := range m.vars {
 		varLog := log.With().Str("variable-name", v.Name).Logger()
 		newName := m.SuggestName(v.Name)
+		for i := 1; exported[template_funcs.Exported(newName)]; i++ {
+			newName = m.SuggestName(fmt.Sprintf("%s%d", v.Name, i))
+		}
+		exported[template_funcs.Exported(newName)] = true
 		if newName != v.Name {
 			varLog.Debug().Str("new-name", newName).Msg("variable was found to conflict with previously allocated name. Giving new name.")
 		}
